@@ -5,8 +5,11 @@
 From Geff Require Export Base Dtype Vlen Tree Validate Write Read.
 Open Scope list_scope.
 
+(* IApiCrash: the same through geff.write (graph-library writer): api_write = the wrapper's guard, then write_arrays(overwrite=False)
+   on the arrays the backend built (captured by the harness) *)
 Inductive input :=
-  ICrash (k : skind) (pre : option znode) (g : wgraph) (md : smeta) (validate overwrite : bool).
+  ICrash (k : skind) (pre : option znode) (g : wgraph) (md : smeta) (validate overwrite : bool)
+| IApiCrash (k : skind) (pre : option znode) (g : wgraph) (md : smeta) (validate overwrite : bool).
 Inductive obs :=
   OCrash (r : res unit) (final : option znode) (survivors : list (option (option znode) * bool)).
 
@@ -16,15 +19,21 @@ Definition same_state (d : option (option znode)) (st : option znode) : bool :=
 
 (* [result class; final tree; every recognised survivor is the new or the previous graph;
     every state of the model's trace is a state the real store passed through] *)
+Definition run_input (i : input) : st * res unit :=
+  match i with
+  | ICrash k pre g md v ov => write_arrays k g md v ov (init pre)
+  | IApiCrash k pre g md v ov => api_write k g md v ov (init pre)
+  end.
+Definition pre_of (i : input) : option znode := match i with ICrash _ pre _ _ _ _ | IApiCrash _ pre _ _ _ _ => pre end.
 Definition diag (c : input * obs) : list bool :=
   match c with
-  | (ICrash k pre g md v ov, OCrash r final survivors) =>
-      let (s', r') := write_arrays k g md v ov (init pre) in
+  | (i, OCrash r final survivors) =>
+      let pre := pre_of i in
+      let (s', r') := run_input i in
       [ res_eqb unit_eqb r' r;
         otree_eqb (s_root s') final;
         forallb (fun dr => negb (snd dr) || same_state (fst dr) (s_root s') || same_state (fst dr) pre) survivors;
         forallb (fun st => existsb (fun dr => same_state (fst dr) st) survivors || otree_eqb st final) (s_trace s') ]
   end.
 Definition check (c : input * obs) : bool := forallb (fun b => b) (diag c).
-Definition model (i : input) : list (option znode) :=
-  match i with ICrash k pre g md v ov => s_trace (fst (write_arrays k g md v ov (init pre))) end.
+Definition model (i : input) : list (option znode) := s_trace (fst (run_input i)).
